@@ -22,6 +22,7 @@ type c08Case struct {
 	G      *ref.G      `json:"g,omitempty"`
 	Start  geom.Layout `json:"start,omitempty"`
 	Ops    []int       `json:"ops,omitempty"`
+	Alpha  string      `json:"alpha,omitempty"` // extend: "" = the layout-mix alphabet, "inf" = one-point geometries with infinite ordinates
 	BoxA   []ref.F     `json:"box_a,omitempty"`
 	BoxB   []ref.F     `json:"box_b,omitempty"`
 	Layout geom.Layout `json:"layout,omitempty"`
@@ -55,7 +56,7 @@ func c08LiveQuery(t geom.T, m *ref.G, final bool) string {
 func init() {
 	engine.Register(&engine.Check{
 		ID: "C08", Level: "model_checking",
-		Rule: "(a) every geometry of U (6 layouts, non-monotonic values) and every collection of 0..3 members over an 8-member menu (mixed layouts, empty members, nested and empty nested collections): Bounds() per semantic dimension vs reference fold, IsEmpty, Bounds.Polygon, GeoJSON bbox; (b) BFS over Extend histories (depth <=4 quick, <=5 thorough) from NewBounds(l), l in {NoLayout,XY,XYZ,XYM,XYZM}, alphabet = 1-point, 2-point and empty geometry per layout: state = (layout, min bits, max bits); every state compared per semantic dimension with the fold over the multiset and with every other history reaching the same multiset; (c) Overlaps/OverlapsPoint on all pairs of boxes with interval endpoints in {0..3} (2D) / {0..2} (3D) incl. empty intervals vs closed-interval arithmetic Also: overlap queries in a narrower layout than the boxes (extra dimensions holding an interval or nothing), and every query / in-place change / query history of length <=3 (thorough 4) on live geometries and collections (members edited or pushed into after the collection was asked for its bounds; the returned box extended by the caller).",
+		Rule: "(a) every geometry of U (6 layouts, non-monotonic values; plus every {finite,+Inf,-Inf} assignment to one dimension of 3-coordinate lines and multipoints) and every collection of 0..3 members over an 8-member menu (mixed layouts, empty members, nested and empty nested collections): Bounds() per semantic dimension vs reference fold, IsEmpty, Bounds.Polygon, GeoJSON bbox; (b) BFS over Extend histories (depth <=4 quick, <=5 thorough) from NewBounds(l), l in {NoLayout,XY,XYZ,XYM,XYZM}, alphabet = 1-point, 2-point and empty geometry per layout, and a second alphabet of one-point geometries with +Inf/-Inf ordinates: state = (layout, min bits, max bits); every state compared per semantic dimension with the fold over the multiset and with every other history reaching the same multiset; (c) Overlaps/OverlapsPoint on all pairs of boxes with interval endpoints in {0..3} (2D) / {0..2} (3D) incl. empty intervals vs closed-interval arithmetic Also: overlap queries in a narrower layout than the boxes (extra dimensions holding an interval or nothing), and every query / in-place change / query history of length <=3 (thorough 4) on live geometries and collections (members edited or pushed into after the collection was asked for its bounds; the returned box extended by the caller).",
 		Run:  c08Run,
 		Replay: func(c *engine.Ctx, kind string, raw json.RawMessage) {
 			if kind == "c08-history" {
@@ -185,6 +186,28 @@ func extendAlphabet() []*ref.G {
 	return out
 }
 
+// extendAlphabetInf: one-point geometries whose ordinates include +Inf and -Inf (the quantifier
+// excludes NaN only). An infinite ordinate that arrives first in its dimension must still be there
+// after finite ones follow, and the other way round.
+func extendAlphabetInf() []*ref.G {
+	inf := math.Inf(1)
+	pt := func(l geom.Layout, v ...float64) *ref.G {
+		return &ref.G{Kind: ref.LineString, Layout: l, C1: []ref.C{ref.FromFloats(v)}}
+	}
+	return []*ref.G{
+		pt(geom.XY, 5, 1), pt(geom.XY, inf, 2), pt(geom.XY, -inf, 3), pt(geom.XY, 7, inf), pt(geom.XY, 6, -inf),
+		pt(geom.XYZ, 2, 2, 4), pt(geom.XYZ, 1, 1, inf), pt(geom.XYM, 3, 3, inf), pt(geom.XYM, 1, 1, -inf),
+		pt(geom.XYZM, 0, 0, 1, 2), pt(geom.XYZM, 0, 0, -inf, inf),
+	}
+}
+
+func extendAlphabetFor(name string) []*ref.G {
+	if name == "inf" {
+		return extendAlphabetInf()
+	}
+	return extendAlphabet()
+}
+
 func bStateKey(b *geom.Bounds) string { return bKey(b) }
 
 func c08Exec(c *engine.Ctx, cs c08Case, onState func(multiset, key string)) {
@@ -258,13 +281,17 @@ func c08Exec(c *engine.Ctx, cs c08Case, onState func(multiset, key string)) {
 		}
 		c.Sample("geom/"+g.Kind.String(), 1, cs)
 	case "extend":
-		alpha := extendAlphabet()
+		alpha := extendAlphabetFor(cs.Alpha)
 		fail := func(what, desc string) {
 			names := []string{}
 			for _, o := range cs.Ops {
+				if cs.Alpha != "" {
+					names = append(names, fmt.Sprintf("%s%v", alpha[o].Layout, alpha[o].C1))
+					continue
+				}
 				names = append(names, fmt.Sprintf("%s/%d", alpha[o].Layout, len(alpha[o].C1)))
 			}
-			c.Violate(fmt.Sprintf("extend/start=%s/%s", cs.Start, what), fmt.Sprintf("%s; NewBounds(%s) then Extend %v", desc, cs.Start, names), "c08", cs)
+			c.Violate(fmt.Sprintf("extend%s/start=%s/%s", cs.Alpha, cs.Start, what), fmt.Sprintf("%s; NewBounds(%s) then Extend %v", desc, cs.Start, names), "c08", cs)
 		}
 		var b *geom.Bounds
 		acc := dimAcc{}
@@ -491,6 +518,29 @@ func c08Run(c *engine.Ctx) {
 			}
 		}
 	}
+	// infinite ordinates (only NaN is excluded): in one dimension at a time, every assignment of
+	// {finite, +Inf, -Inf} to the three coordinates of a line and to the members of a multipoint
+	infMenu := []float64{0, math.Inf(1), math.Inf(-1)}
+	for _, l := range ref.LayoutsAll {
+		for d := 0; d < l.Stride(); d++ {
+			for pat := 0; pat < 27; pat++ {
+				for variant := 0; variant < 2; variant++ {
+					g := ref.NewLine(ref.LineString, l, 3, wobble())
+					if variant == 1 {
+						g = ref.NewMultiPoint(l, []int{1, 1, 1}, wobble())
+					}
+					p := pat
+					for k := 0; k < 3; k++ {
+						if v := infMenu[p%3]; v != 0 {
+							g.C1[k][d] = ref.F(v)
+						}
+						p /= 3
+					}
+					geoms = append(geoms, g)
+				}
+			}
+		}
+	}
 	c.Note("geometries", len(geoms))
 	c.Parallel(len(geoms), func(i int) { c08Exec(c, c08Case{Mode: "geom", G: geoms[i]}, nil) })
 
@@ -500,39 +550,41 @@ func c08Run(c *engine.Ctx) {
 		depth = 5
 	}
 	c.Note("extend_depth", depth)
-	alpha := extendAlphabet()
-	for _, start := range []geom.Layout{geom.NoLayout, geom.XY, geom.XYZ, geom.XYM, geom.XYZM} {
-		seen := map[string]struct{}{}
-		byMultiset := map[string]string{}
-		var mu sync.Mutex
-		frontier := [][]int{{}}
-		for d := 1; d <= depth; d++ {
-			var next [][]int
-			c.Parallel(len(frontier), func(i int) {
-				for o := range alpha {
-					h := append(append([]int{}, frontier[i]...), o)
-					c.Count("transitions", 1)
-					cs := c08Case{Mode: "extend", Start: start, Ops: h}
-					c08Exec(c, cs, func(ms, key string) {
-						mu.Lock()
-						defer mu.Unlock()
-						if prev, ok := byMultiset[ms]; ok && prev != key {
-							c.Violate(fmt.Sprintf("extend/start=%s/order-dependent", start), fmt.Sprintf("multiset %s reaches %s by one order and %s by another (history %v)", ms, prev, key, h), "c08", cs)
-						} else if !ok {
-							byMultiset[ms] = key
-						}
-						if _, ok := seen[key]; !ok {
-							seen[key] = struct{}{}
-						}
-						// all histories are expanded (the multiset, not the state, determines the reference)
-						next = append(next, h)
-					})
-				}
-			})
-			frontier = next
+	for _, alphaName := range []string{"", "inf"} {
+		alpha := extendAlphabetFor(alphaName)
+		for _, start := range []geom.Layout{geom.NoLayout, geom.XY, geom.XYZ, geom.XYM, geom.XYZM} {
+			seen := map[string]struct{}{}
+			byMultiset := map[string]string{}
+			var mu sync.Mutex
+			frontier := [][]int{{}}
+			for d := 1; d <= depth; d++ {
+				var next [][]int
+				c.Parallel(len(frontier), func(i int) {
+					for o := range alpha {
+						h := append(append([]int{}, frontier[i]...), o)
+						c.Count("transitions", 1)
+						cs := c08Case{Mode: "extend", Start: start, Ops: h, Alpha: alphaName}
+						c08Exec(c, cs, func(ms, key string) {
+							mu.Lock()
+							defer mu.Unlock()
+							if prev, ok := byMultiset[ms]; ok && prev != key {
+								c.Violate(fmt.Sprintf("extend%s/start=%s/order-dependent", alphaName, start), fmt.Sprintf("multiset %s reaches %s by one order and %s by another (history %v)", ms, prev, key, h), "c08", cs)
+							} else if !ok {
+								byMultiset[ms] = key
+							}
+							if _, ok := seen[key]; !ok {
+								seen[key] = struct{}{}
+							}
+							// all histories are expanded (the multiset, not the state, determines the reference)
+							next = append(next, h)
+						})
+					}
+				})
+				frontier = next
+			}
+			c.Count("states", int64(len(seen)))
+			c.Count("multisets", int64(len(byMultiset)))
 		}
-		c.Count("states", int64(len(seen)))
-		c.Count("multisets", int64(len(byMultiset)))
 	}
 	// (c) overlap tests
 	type iv [2]float64
